@@ -43,7 +43,8 @@ type pathState struct {
 	known       []knownRegion
 	pendingEnd  *pathEnd
 	hosts       sync.WaitGroup
-	forks       [][]bool
+	forks       []workItem
+	item        workItem
 	reached     map[string]int
 	viol        []Violation
 	knownSeen   map[string]int
@@ -65,7 +66,16 @@ type pathState struct {
 	modelN      int
 	savedQ      int
 	// sched mode
+	nodes        []*nodeRec
+	newNodes     []nodeReg
+	btReq        []btRequest
+	sleepAtOwn   [][]sleeper
+	trace        []*traceRec
+	gclock       map[int][]int
+	objs         map[interface{}]*objClocks
 	sched        bool
+	transSeq     int
+	settled      int
 	sleep        []sleeper
 	schedSteps   int
 	schedChoices int
@@ -103,7 +113,9 @@ type PathResult struct {
 	Outcome   Outcome
 	Msg       string
 	Decisions int
-	Forks     [][]bool
+	Forks     []workItem
+	NewNodes  []nodeReg
+	BT        []btRequest
 	Viol      []Violation
 	KnownSeen map[string]int
 	Reached   map[string]int
@@ -388,10 +400,19 @@ func (m *Machine) branch(c *Term) bool {
 	sib := make([]bool, len(p.decisions)+1)
 	copy(sib, p.decisions)
 	sib[len(p.decisions)] = false
-	p.forks = append(p.forks, sib)
+	p.pushFork(sib)
 	p.decisions = append(p.decisions, true)
 	m.addPC(c)
 	return true
+}
+
+// pushFork queues a sibling path (same schedule-exploration context as the current one).
+func (p *pathState) pushFork(sib []bool) {
+	it := workItem{prefix: sib}
+	if len(p.sleepAtOwn) > 0 {
+		it.sleepAt = append([][]sleeper(nil), p.sleepAtOwn...)
+	}
+	p.forks = append(p.forks, it)
 }
 
 // freeBranch is a scheduler-level nondeterministic choice (no solver involved).
@@ -405,7 +426,7 @@ func (m *Machine) freeBranch() bool {
 	}
 	sib := make([]bool, len(p.decisions)+1)
 	copy(sib, p.decisions)
-	p.forks = append(p.forks, sib)
+	p.pushFork(sib)
 	p.decisions = append(p.decisions, true)
 	return true
 }
@@ -590,9 +611,25 @@ func (m *Machine) modelObs() []string {
 	return out
 }
 
+// concreteVector: the values of the nondeterministic inputs when they are all pinned by the path
+// condition (menu harnesses); symbolic ones print as -1.
+func (m *Machine) concreteVector() []int64 {
+	var out []int64
+	for _, nv := range m.path.nondet {
+		t := m.simp(nv.t)
+		if t.IsConst() {
+			out = append(out, int64(t.I))
+		} else {
+			out = append(out, -1)
+		}
+	}
+	return out
+}
+
 // RunPath executes one harness path following prefix.
-func (m *Machine) RunPath(h *HarnessSpec, prefix []bool, wantSample bool) (res PathResult) {
-	p := &pathState{prefix: prefix, pcSet: map[*Term]bool{}, reached: map[string]int{}, knownSeen: map[string]int{}, expect: map[Outcome]bool{}, assumptions: map[string]bool{}, vals: map[*Term]*Term{}}
+func (m *Machine) RunPath(h *HarnessSpec, item workItem, wantSample bool) (res PathResult) {
+	prefix := item.prefix
+	p := &pathState{prefix: prefix, item: item, pcSet: map[*Term]bool{}, reached: map[string]int{}, knownSeen: map[string]int{}, expect: map[Outcome]bool{}, assumptions: map[string]bool{}, vals: map[*Term]*Term{}}
 	m.path = p
 	if m.P.ReinitGlobals {
 		// C19: package-level state may be written by the code under test; every path starts
@@ -663,11 +700,34 @@ func (m *Machine) RunPath(h *HarnessSpec, prefix []bool, wantSample bool) (res P
 			}
 		}
 	}()
+	if f := os.Getenv("GSE_OUTCOMES"); f != "" && outcome != OutPruned && outcome != OutAssume {
+		// debugging aid: one line per complete path (printed output in order + outcome + nondet picks)
+		line := fmt.Sprintf("%s %v %s |", h.Name, m.concreteVector(), outcome)
+		for _, e := range p.events {
+			if strings.HasPrefix(e, "OUT ") {
+				line += " " + strings.TrimSpace(e[4:])
+			} else if os.Getenv("GSE_OUTCOMES_FULL") != "" && (strings.HasPrefix(e, "T ")) {
+				line += " " + e[2:]
+			}
+		}
+		for _, v := range p.viol {
+			line += " !" + v.Assert
+		}
+		if fh, err := os.OpenFile(f, os.O_APPEND|os.O_CREATE|os.O_WRONLY, 0644); err == nil {
+			fh.WriteString(line + "\n")
+			fh.Close()
+		}
+	}
 	m.killGoroutines()
 	m.sol.PopAll()
 	res.Outcome, res.Msg = outcome, msg
 	res.Decisions = len(p.decisions)
+	if p.sched || len(p.nodes) > 0 {
+		m.dporPathEnd()
+	}
 	res.Forks = p.forks
+	res.NewNodes = p.newNodes
+	res.BT = p.btReq
 	res.Viol = p.viol
 	res.KnownSeen = p.knownSeen
 	res.Reached = p.reached
@@ -712,7 +772,8 @@ func Explore(P *Program, h *HarnessSpec, workers int, sampleEvery int, maxSample
 	res := &HarnessResult{Name: h.Name, ByOutcome: map[string]int{}, KnownSeen: map[string]int{}, Reached: map[string]int{}, Funcs: map[string]int{}, Stubs: map[string]int{}}
 	var mu sync.Mutex
 	cond := sync.NewCond(&mu)
-	frontier := [][]bool{{}}
+	frontier := []workItem{{}}
+	dnodes := map[string]*dporNode{}
 	active := 0
 	problems := map[string]int{}
 	violPerID := map[string]int{}
@@ -763,6 +824,7 @@ func Explore(P *Program, h *HarnessSpec, workers int, sampleEvery int, maxSample
 				n++
 				want := sampleEvery > 0 && n%sampleEvery == 1%sampleEvery
 				pr := m.RunPath(h, prefix, want)
+				_ = dnodes
 
 				mu.Lock()
 				active--
@@ -775,6 +837,31 @@ func Explore(P *Program, h *HarnessSpec, workers int, sampleEvery int, maxSample
 				}
 				for _, f := range pr.Forks {
 					frontier = append(frontier, f)
+				}
+				for _, nr := range pr.NewNodes {
+					if dnodes[nr.key] == nil {
+						dnodes[nr.key] = &dporNode{scheduled: []sleeper{nr.chosen}}
+					}
+				}
+				for _, bt := range pr.BT {
+					dn := dnodes[bt.key]
+					if dn == nil {
+						continue
+					}
+					dup := false
+					for _, s := range dn.scheduled {
+						if s.t == bt.alt.t {
+							dup = true
+						}
+					}
+					if dup {
+						continue
+					}
+					sleepAdd := append([]sleeper(nil), dn.scheduled...)
+					dn.scheduled = append(dn.scheduled, bt.alt)
+					it := workItem{prefix: bt.prefix}
+					it.sleepAt = append(append([][]sleeper(nil), bt.sleepAt...), sleepAdd)
+					frontier = append(frontier, it)
 				}
 				for _, v := range pr.Viol {
 					k := v.Assert + "|" + v.Known
